@@ -248,3 +248,43 @@ func c13MaxAttempts() int {
 	}
 	return 2
 }
+
+// c13EndedCtx is a caller's context that has already ended.
+type c13EndedCtx struct {
+	context.Context
+	err error
+}
+
+func (c *c13EndedCtx) Done() <-chan struct{} {
+	ch := make(chan struct{})
+	close(ch)
+	return ch
+}
+func (c *c13EndedCtx) Err() error        { return c.err }
+func (c *c13EndedCtx) Value(any) any     { return nil }
+func (c *c13EndedCtx) Deadline() (time.Time, bool) { return time.Time{}, false }
+
+// Harness_C13_endedContext: a submission whose caller's context has ended (cancelled or past its
+// deadline) returns that context's error at once and leaves the back-off state, which every
+// submission on the client shares, untouched -- so that it adds no delay to anybody else's retry
+// (408 is retried without added delay).
+//
+//verif:opt maxpaths=200 reach=returned
+func Harness_C13_endedContext() {
+	c13Start()
+	c13FixedClock = true
+	srv := &c13Server{}
+	bo := &recBackoff{}
+	c := &JSONClient{uri: "http://log.example", httpClient: &http.Client{Transport: srv}, logger: &basicLogger{}, backoff: bo}
+	cerr := []error{context.Canceled, context.DeadlineExceeded}[vChoice("context-error", 2)]
+	ctx := &c13EndedCtx{err: cerr}
+	srv.respond = func(n int, req *http.Request) (*http.Response, error) {
+		return nil, cerr // what a transport reports for a request whose context has ended
+	}
+	var out c13Reply
+	rsp, _, err := c.PostAndParseWithRetry(ctx, "/ct/v1/add-chain", &c13Reply{}, &out)
+	vAssert(err == cerr && rsp == nil, "the caller's context error is returned as is")
+	vAssert(srv.calls <= 1, "no retry once the context has ended")
+	vAssert(bo.sets == 0, "a submission that ends with its caller's context leaves the shared back-off untouched")
+	vReach("returned")
+}
